@@ -590,6 +590,8 @@ structure Mon where
   refunded : AMap Nat Nat := []
   /-- proposals closed by a Close (as opposed to stored Rejected by a vote or at creation) -/
   closed : List Nat := []
+  /-- which kind of op made the *stored* status of a proposal Rejected (first time seen) -/
+  rejBy : AMap Nat String := []
   /-- header `wide=1`: only the most recent proposals have a snapshot probe -/
   wide : Bool := false
 
@@ -645,7 +647,7 @@ def monitorOp (mu : Mon) (prev : Args) (toks : List String) (implOk : Bool) (out
     let P : Obs := if fresh then { props := [], votes := [], raw := [], snap := [], members := O.members, bank := O.bank, cw20 := O.cw20 }
                    else parseObs prev
     let mu := if fresh then { mu with inited := true, maxp := parseDur (a.str "period"), dirtyAt := some blk.height,
-                                      createdDirty := [], execOk := [], refunded := [], closed := [] } else mu
+                                      createdDirty := [], execOk := [], refunded := [], closed := [], rejBy := [] } else mu
     let handlerOk := implOk || out.str "handler" == "ok"
     let outMsgs := out.str "msgs"
     -- ---------- bookkeeping: group writes in the current block, proposals created after one
@@ -918,7 +920,11 @@ def monitorOp (mu : Mon) (prev : Args) (toks : List String) (implOk : Bool) (out
             else
               (match r with
                 | some r =>
-                  if refundEnabled then (if ms == [r] then [] else [mk "C15" "C15/close-refund" s!"id={opId} msgs={outMsgs} expected={r}"])
+                  if refundEnabled then
+                    (if ms == [r] then [] else [mk "C15" "C15/close-refund" s!"id={opId} msgs={outMsgs} expected={r}"]) ++
+                    -- the deposit of a *failed* proposal is what Close returns: not of one that can still be voted on
+                    (if ms.contains r && !isExp p.expires blk then
+                      [mk "C15" "C15/refund-before-failure" s!"id={opId} closed and refunded before its expiry"] else [])
                   else (if ms.isEmpty then [] else [mk "C15" "C15/refund-when-disabled" s!"id={opId} msgs={outMsgs}"])
                 | none => if ms.isEmpty then [] else [mk "C15" "C15/close-messages" s!"id={opId} msgs={outMsgs}"])
           | none => [])
@@ -940,6 +946,7 @@ def monitorOp (mu : Mon) (prev : Args) (toks : List String) (implOk : Bool) (out
         match findRaw O r.id, findProp P r.id with
         | some r', some p =>
           if (kind == "execute" || kind == "close") && r.id == opId then none
+          else if kind != "execute" then none   -- only a proposal's own messages can call back into the multisig
           else if r.status != r'.status then
             let hasDep := (parseDep p.dep).isSome
             let refundEnabled := match parseDep p.dep with | some d => d.2.2.2 | none => false
@@ -954,7 +961,7 @@ def monitorOp (mu : Mon) (prev : Args) (toks : List String) (implOk : Bool) (out
       (P.raw.filterMap fun r =>
         match findRaw O r.id, findProp P r.id with
         | some r', some p =>
-          if r.status == "open" && r'.status == "rejected" && isExp p.expires blk && !(kind == "close" && r.id == opId) then some r.id else none
+          if kind == "execute" && r.status == "open" && r'.status == "rejected" && isExp p.expires blk then some r.id else none
         | _, _ => none)
     -- an executed proposal's deposit is returned: the handler's messages are the refund followed by the
     -- proposal's own messages (a proposal message that merely looks like the refund does not replace it);
@@ -982,8 +989,12 @@ def monitorOp (mu : Mon) (prev : Args) (toks : List String) (implOk : Bool) (out
         | none => none)
     let f15 := f15 ++ refundsNow.flatMap fun id =>
       if (mu.refunded.get? id).getD 0 ≥ 1 then [mk "C15" "C15/refund-twice" s!"id={id} by {kind}"] else []
+    let rejNow : List Nat := if !implOk then [] else O.raw.filterMap fun r' =>
+      if r'.status == "rejected" && (match findRaw P r'.id with | some r => r.status != "rejected" | none => true)
+        && (mu.rejBy.get? r'.id).isNone then some r'.id else none
     let mu := { mu with refunded := refundsNow.foldl (fun m id => m.set id ((m.get? id).getD 0 + 1)) mu.refunded,
-                        closed := mu.closed ++ closedNow }
+                        closed := mu.closed ++ closedNow,
+                        rejBy := rejNow.foldl (fun m id => m.set id kind) mu.rejBy }
     -- (5) with refunds enabled the deposit of every failed proposal is recoverable: Close must not be refused
     let f15 := f15 ++ (if fresh || kind != "close" || handlerOk then [] else
       match findProp P opId, findRaw P opId with
@@ -991,7 +1002,13 @@ def monitorOp (mu : Mon) (prev : Args) (toks : List String) (implOk : Bool) (out
         let refundEnabled := match parseDep p.dep with | some d => d.2.2.2 | none => false
         if p.status == "rejected" && isExp p.expires blk && refundEnabled && (mu.refunded.get? opId).getD 0 == 0 then
           if r.status == "rejected" && !mu.closed.contains opId then
-            [mk "C15" "C15/flex/deposit-stuck-stored-rejected" s!"id={opId} stored=rejected expired deposit={p.dep} Close refused, deposit never refunded"]
+            -- the known finding: voted down before its expiry (a Vote stored Rejected) or created already expired
+            -- (Propose stored Rejected); stored Rejected by anything else is a different defect
+            let by_ := (mu.rejBy.get? opId).getD "?"
+            if by_ == "vote" || by_ == "propose" || by_ == "execute" || by_ == "close" || by_ == "?" then   -- execute: a nested Vote
+              [mk "C15" "C15/flex/deposit-stuck-stored-rejected" s!"id={opId} stored=rejected expired deposit={p.dep} Close refused, deposit never refunded"]
+            else
+              [mk "C15" "C15/flex/deposit-stuck-rejected-by-other-op" s!"id={opId} stored Rejected by {by_}, expired, deposit={p.dep}: Close refused, deposit never refunded"]
           else [mk "C15" "C15/flex/close-refused-deposit-stuck" s!"id={opId} stored={r.status} deposit={p.dep}"]
         else []
       | _, _ => [])
